@@ -46,6 +46,10 @@ def main():
         if cfg["kind"] == "standard":
             obs = StandardObserver(em, model, kill_at_eval=cfg.get("kill_at_eval"))
             obs.install()
+            if cfg.get("fs_faults"):
+                from .observe import FsFaults
+
+                FsFaults(em, obs, **cfg["fs_faults"]).install()
             kwargs = dict(cfg.get("kwargs", {}))
             kwargs.setdefault("plot", False)
             kwargs.setdefault("log_on_iteration", False)
@@ -56,8 +60,10 @@ def main():
                              **kwargs)
             obs.ns = fs.ns
             if cfg.get("resume") and fs.ns.resumed:
+                from .observe import flow_digest
+
                 em.emit("resume", digest=obs.deep_digest(fs.ns), live=obs.live_state(fs.ns),
-                        **obs.tails(fs.ns), **obs.counts_resume(fs.ns))
+                        flow_w=flow_digest(fs.ns), **obs.tails(fs.ns), **obs.counts_resume(fs.ns))
             save = cfg.get("save")
             fs.result_extension = save or "json"
             fs.run(plot=False, save=bool(save))
